@@ -440,6 +440,20 @@ def _without_precomputed(index: RepoIndex, c, call_text: Optional[str]) -> Optio
             return None
         want_v = src(_SubstNames(bound).visit(copy.deepcopy(init[0].body[0].value)))
         v = k.value
+        if isinstance(v, ast.Attribute) and src(v.value) == 'self' and \
+                v.attr not in c.methods and '__init__' in c.methods:
+            # computed once by the constructor and kept: self.X = E(..) in __init__
+            wi = walk_function(c.methods['__init__'].node)
+            sts = [e_ for e_ in wi.events if e_.kind == 'attrstore'
+                   and src(e_.target) == f'self.{v.attr}' and e_.guard == ('true',)]
+            others = [m_ for mn_, m_ in c.methods.items() if mn_ != '__init__'
+                      and any(isinstance(x_, (ast.Assign, ast.AugAssign, ast.AnnAssign)) and
+                              f'self.{v.attr}' in [src(t_) for t_ in (
+                                  x_.targets if isinstance(x_, ast.Assign) else [x_.target])]
+                              for x_ in ast.walk(m_.node))]
+            if len(sts) != 1 or others or src(sts[0].value) != want_v:
+                return None
+            continue
         if not (isinstance(v, ast.Attribute) and src(v.value) == 'self' and
                 v.attr in c.methods and c.methods[v.attr].node.decorator_list):
             return None
@@ -496,9 +510,17 @@ def type_sets(index: RepoIndex, rep, rule: str) -> None:
                 raise AnalysisError(f'{c.name}.__init__ vanished')
             w = walk_function(init.node)
             st = {src(e.target): src(e.value) for e in w.events if e.kind == 'attrstore'}
-            ok = st.get('self._grid_object_types') in (
-                f'set({sp_attr}.object_types) | {extra}',) and \
-                st.get('self._grid_object_colors') == f'set({sp_attr}.colors)'
+            # read as sets: `frozenset([*space.object_types, NoneGridObject])` is the same set
+            from ..setden import set_den
+            stv = {src(e.target): e.value for e in w.events if e.kind == 'attrstore'}
+            dt = set_den(stv['self._grid_object_types']) \
+                if 'self._grid_object_types' in stv else None
+            dc = set_den(stv['self._grid_object_colors']) \
+                if 'self._grid_object_colors' in stv else None
+            want_t = {f'{sp_attr}.object_types'} | {
+                'elt:' + x.strip() for x in extra.strip('{}').split(',')}
+            ok = dt is not None and dc is not None and dt[0] == want_t and dt[1] and \
+                dc[0] == {f'{sp_attr}.colors'} and dc[1]
             rep.check(ok, rule, rel, f'{c.name}.__init__', init.node.lineno,
                       f'{st.get("self._grid_object_types")}; {st.get("self._grid_object_colors")}',
                       f'{c.name}: the type set is not the space\'s object types plus {extra} '
@@ -509,7 +531,8 @@ def type_sets(index: RepoIndex, rep, rule: str) -> None:
             want = f'{fn_pref}_grid_object_representation_space(self._grid_object_types, ' \
                    f'self._grid_object_colors)'
             from ..view import value_text
-            rep.check(value_text(index, sp) == want,
+            rep.check(value_text(index, sp) == want or
+                      _without_precomputed(index, c, value_text(index, sp)) == want,
                       rule, rel, f'{c.name}.space', sp.node.lineno, src(b[-1]),
                       f'{c.name}.space does not derive its bounds from the same type/colour sets',
                       f'{c.name}.space sets')
